@@ -127,7 +127,7 @@ class C18(SeqProp):
     props_file = "Props/C18.v"
     focus = "mix"
     quick_cases = 250
-    thorough_cases = 4000
+    thorough_cases = 1500
     assumptions = [
         "the switched sequence is compared with the original on: channel names, slot kinds/times/targets, pulse samples and phases, EOM blocks, and the sampled amplitude/detuning/phase arrays",
     ]
